@@ -1,0 +1,25 @@
+//go:build verif
+
+package cstate
+
+import (
+	"github.com/kardiachain/go-kardia/lib/log"
+	"github.com/kardiachain/go-kardia/types"
+)
+
+// Verification hooks for the out-of-tree harness (/verif/harness/determinism, property C06).
+// Add-only: exported names for unexported functions; nothing here is compiled without the
+// `verif` build tag.
+
+// VerifDetCalcValidatorUpdates exposes calculateValidatorSetUpdates: the full validator list the
+// application (staking contract) reports -> change set against the current NextValidators.
+func VerifDetCalcValidatorUpdates(lastVals []*types.Validator, vals []*types.Validator) []*types.Validator {
+	return calculateValidatorSetUpdates(lastVals, vals)
+}
+
+// VerifDetUpdateState exposes updateState: the chain-state transition ApplyBlock performs once the
+// application has executed the block (rotation of the three validator sets, application of the
+// change set to NextValidators, one proposer-priority increment).
+func VerifDetUpdateState(state LatestBlockState, blockID types.BlockID, header *types.Header, valUpdates []*types.Validator) (LatestBlockState, error) {
+	return updateState(log.New(), state, blockID, header, valUpdates)
+}
